@@ -127,6 +127,19 @@ fn check_recompute_bbox(ctx: &mut Ctx, g: &MGlyph) {
 
 /// Glyph values at the edge of what `add_glyph` accepts (outside the main claim).
 fn probes(ctx: &mut Ctx) {
+    // incidental observation (not part of C09's statement): CompositeGlyph::try_from_iter documents nothing about
+    // the bbox but add_component unions; record what try_from_iter does with two disjoint boxes
+    {
+        let c = |g: u16| to_component(&MComp { gid: g, anchor: MAnchor::Offset(0, 0), flags: MFlags::default(), xform: IDENT });
+        let r = vf_core::guard(|| {
+            w::CompositeGlyph::try_from_iter([(c(1), to_bbox([0, 0, 10, 10])), (c(2), to_bbox([-50, -60, 70, 80]))]).map(|g| g.bbox)
+        });
+        if let Ok(Ok(b)) = r {
+            let got = [b.x_min, b.y_min, b.x_max, b.y_max];
+            let what = if got == [-50, -60, 70, 80] { "union" } else if got == [0, 0, 10, 10] { "first-component-only (union result discarded)" } else { "other" };
+            ctx.label("incidental:CompositeGlyph::try_from_iter_bbox", what);
+        }
+    }
     // empty contour after a non-empty one: representable (repeated end point)
     let g = MGlyph::Simple {
         bbox: [0, 0, 5, 5],
